@@ -324,6 +324,18 @@ pub fn configs(thorough: bool) -> Vec<Config> {
             vec![Op::Pull, Op::Pull, Op::Pull],
         ]});
     }
+    // byte accounting at integer-width boundaries: the same shapes with every size and the capacity
+    // multiplied by 2^16, 2^31 and 2^32 (sizes are only numbers to the queue, nothing that large is allocated)
+    let scalable: Vec<Config> = out.iter().filter(|c| c.cap == 2).cloned().enumerate().filter(|(i, _)| [0usize, 3, 8, 9, 10].contains(i)).map(|(_, c)| c).collect();
+    for unit in [1usize << 16, 1 << 31, 1 << 32] {
+        for c in &scalable {
+            out.push(Config { cap: c.cap * unit, threads: c.threads.iter().map(|t| t.iter().map(|o| match o {
+                Op::Push(p, s) => Op::Push(*p, s * unit),
+                Op::TryPush(p, s) => Op::TryPush(*p, s * unit),
+                x => *x,
+            }).collect()).collect() });
+        }
+    }
     out
 }
 
@@ -332,7 +344,7 @@ pub fn run() -> i32 {
         "C06",
         "oplevel",
         "model_checking",
-        "stateless exhaustive enumeration of all interleavings of atomic queue operations (push/try_push/pull/try_pull/close) of <=2 producers x <=3 ops, <=3 consumers x <=3 ops and a closer on the real MemoryBoundedQueue, capacity 2 and 3, priorities {0,1,2} with ties, sizes {0,1,cap,cap+1}; an op is scheduled iff the reference model's blocking predicate is false; oracle = reference multiset after every step + drain at every leaf",
+        "stateless exhaustive enumeration of all interleavings of atomic queue operations (push/try_push/pull/try_pull/close) of <=2 producers x <=3 ops, <=3 consumers x <=3 ops and a closer on the real MemoryBoundedQueue, capacity 2 and 3, priorities {0,1,2} with ties, sizes {0,1,cap,cap+1} (and the same shapes scaled by 2^16, 2^31, 2^32); an op is scheduled iff the reference model's blocking predicate is false; oracle = reference multiset after every step + drain at every leaf",
     );
     quiet_panics();
     let cfgs = configs(rep.thorough());
